@@ -31,6 +31,31 @@ def poissonR (Ω mass : Rat) (n : Nat) (z : Int) (lambdaFactor neutronShift prot
   ints.zipIdx.map (fun (x, i) =>
     { mz := chargedMz (mass + ((i : Nat) : Rat) * neutronShift) z proton, int := x / tot })
 
+/-- `poisson_approximate_n_peaks_of_impl` with its range behaviour:
+
+        let cur_intensity = p_i / factorial_acc;
+        if cur_intensity.is_infinite() { return i; }
+        acc += cur_intensity;
+        if cur_intensity / acc < target_threshold { return i; }
+
+    `p_i` beyond Ω with `factorial_acc` in range: `inf`, the early return.  Both beyond Ω: `inf / inf = NaN` — not infinite,
+    `acc` becomes NaN and no later comparison holds: the loop runs out and `max_iter` is returned.  Only the factorial beyond
+    Ω: the term is `0.0`. -/
+def poissonNLoopR (Ω lam target : Rat) (maxIter : Nat) : Nat → Nat → PoisState → Rat → Nat
+  | 0, _, _, _ => maxIter
+  | fuel + 1, i, s, acc =>
+    if i < maxIter then
+      let s' := pNext lam s i
+      if Ω < s'.p then (if Ω < s'.f then maxIter else i)
+      else
+        let cur := if Ω < s'.f then 0 else s'.cur
+        let acc' := acc + cur
+        if cur / acc' < target then i else poissonNLoopR Ω lam target maxIter fuel (i + 1) s' acc'
+    else maxIter
+
+def poissonNR (Ω mass lambdaFactor t : Rat) (maxIter : Nat) : Nat :=
+  poissonNLoopR Ω (mass / lambdaFactor) (1 - t) maxIter maxIter 1 ⟨1, 1⟩ 1
+
 /-- the largest finite binary64 value: (2 − 2^-52) · 2^1023 -/
 def f64Max : Rat := (2 ^ 1024 - 2 ^ 971 : Int)
 
